@@ -561,6 +561,168 @@ def oracle_opt(p):
 
 
 # ---------------------------------------------------------------------------------------------------------------------------
+# (almost) noiseless line spectra: per-bin comparison with a tolerance derived from the conditioning of each value
+
+EPS = float(np.finfo(float).eps)
+# Every estimate is a quotient / product of trigonometric polynomials evaluated by a zero-padded FFT: the absolute rounding error
+# of a polynomial value is about eps * (largest value of that polynomial), whatever the grid.  Relative to the PSD value v itself:
+#   pole   v = c / |A(f)|^2  (AR classes, subspace pseudo-spectra):   err / v  ~  eps * sqrt(v / vmin)
+#   pole1  v = c / Re psi(f) (minimum variance: linear denominator):  err / v  ~  eps * v / vmin
+#   zero   v = c * |B(f)|^2  (periodogram, multitaper, MA):           err / v  ~  eps * sqrt(vmax / v)
+#   zero1  v = Re sum r e^.. (correlogram: linear):                   err / v  ~  eps * vmax / |v|
+#   both   v = c |B|^2/|A|^2 (ARMA):                                  sum of pole and zero terms
+# vmin / vmax: smallest / largest finite non-zero |value| over BOTH full grids (scale of the tolerance only).
+# LINE_K: measured on the unchanged tree over 60000 line records (all classes below, noise 1e-5 ... 1e-12 and exactly 0, lines on
+# common bins / on the fine grid only / at DC and Nyquist, multiples and gcd pairs): worst observed |a-b| / (max(|a|,|b|) * eps *
+# cond) = 5.1 (see the per-class table in the final comment of this block); 256 leaves a margin of 50.
+LINE_K = 256.0
+LINE_COND = {"pburg": "pole", "pyule": "pole", "pcovar": "pole", "pmodcovar": "pole", "pmusic": "pole", "pev": "pole",
+             "pminvar": "pole1", "Periodogram": "zero", "MT-unity": "zero", "MT-eigen": "zero", "pma": "zero",
+             "pcorrelogram": "zero1", "parma": "both"}
+LINE_CLASSES = [c for c in C.CLASSES if c in LINE_COND]      # adaptive multitaper: see PARTIAL
+# a bin whose tolerance reaches LINE_OPEN carries no information (the value is rounding noise: 1/round-off at the line of a
+# noiseless record); there only the order of magnitude is compared (pole classes: both values must be "huge": the smaller one
+# must itself have a tolerance >= LINE_OPEN / LINE_W; measured worst ratio 37, LINE_W = 2000)
+LINE_OPEN = 0.25
+LINE_W = 2000.0
+
+
+def _line_cond(kind, m, vmin, vmax):
+    with np.errstate(all="ignore"):
+        if kind == "pole":
+            return np.sqrt(m / vmin)
+        if kind == "pole1":
+            return m / vmin
+        if kind == "zero":
+            return np.sqrt(vmax / m)
+        if kind == "zero1":
+            return vmax / m
+        return np.sqrt(m / vmin) + np.sqrt(vmax / m)
+
+
+def _line_build(p, n1, n2):
+    """the two estimates: two fresh objects, or one object whose NFFT is changed (either direction)"""
+    cls, x, fs, cfg = p["cls"], p["x"], _fs_of(p), p.get("cfg")
+    via = p.get("via", "fresh")
+    if via == "fresh":
+        o1 = C.make(cls, x, n1, fs, False, cfg)
+        a1 = np.array(o1.psd, dtype=float)
+        o2 = C.make(cls, x, n2, fs, False, cfg)
+        a2 = np.array(o2.psd, dtype=float)
+        return o1, a1, o2, a2
+    first, second = (n1, n2) if via == "setter" else (n2, n1)
+    o = C.make(cls, x, first, fs, False, cfg)
+    af = np.array(o.psd, dtype=float)
+    ref = C.make(cls, x, first, fs, False, cfg)
+    ref.psd
+    o.NFFT = second
+    asec = np.array(o.psd, dtype=float)
+    return (ref, af, o, asec) if via == "setter" else (o, asec, ref, af)
+
+
+def line_stats(p):
+    """(failures, worst normalised error, worst open-bin ratio) -- the last two are what the tolerances were measured with"""
+    cls, n1 = p["cls"], p["n1"]
+    xa = np.asarray(p["x"])
+    isreal = not np.iscomplexobj(xa)
+    n2 = p.get("n2", n1 * p.get("c", 1))
+    g = gcd(n1, n2)
+    s1, s2 = n1 // g, n2 // g
+    fs = _fs_of(p)
+    tag = "%s line spectrum (%s, N=%d, noise %g, lines %s %s%s)" % (
+        cls, "real" if isreal else "complex", len(xa), p.get("sigma", -1), "+".join("%d/%d" % (j, d) for j, d in p.get("lines", [])),
+        p.get("where", ""), "" if p.get("via", "fresh") == "fresh" else ", " + p["via"])
+    out = []
+    built, errs = None, []
+    try:
+        built = _line_build(p, n1, n2)
+    except Exception as e:                      # noqa: BLE001
+        errs.append(type(e).__name__)
+    if built is None:
+        # outside the estimator's domain (e.g. Burg order above the number of components of a noiseless record: "decrease the
+        # order"): not a statement about NFFT as long as BOTH grids are refused alike
+        for n in (n1, n2):
+            try:
+                np.asarray(C.make(cls, p["x"], n, fs, False, p.get("cfg")).psd)
+                out.append("%s: NFFT=%d gives an estimate but the pair NFFT=%d / %d could not be evaluated (%s)" % (tag, n, n1, n2, errs[0]))
+            except Exception:                   # noqa: BLE001
+                pass
+        return out, 0.0, 0.0
+    o1, a1, o2, a2 = built
+    if len(a1) != _onesided_len(isreal, n1) or len(a2) != _onesided_len(isreal, n2):
+        out.append("%s: NFFT=%d / %d: %d / %d values" % (tag, n1, n2, len(a1), len(a2)))
+        return out, 0.0, 0.0
+    a = a1[::s1]
+    b = a2[::s2][: len(a)]
+    if len(a) != len(b) or len(a) != _onesided_len(isreal, g):
+        out.append("%s: NFFT=%d / %d: %d and %d values at the %d common frequencies" % (tag, n1, n2, len(a), len(b), _onesided_len(isreal, g)))
+        return out, 0.0, 0.0
+    f1, f2 = np.asarray(o1.frequencies(), float), np.asarray(o2.frequencies(), float)
+    if len(f1) != len(a1) or len(f2) != len(a2) or np.max(np.abs(f1[::s1] - f2[::s2][: len(a)])) > 1e-12 * abs(fs):
+        out.append("%s: frequencies() of NFFT=%d and NFFT=%d differ at the common bins" % (tag, n1, n2))
+    nan = np.isnan(a) | np.isnan(b)
+    if np.any(np.isnan(a) != np.isnan(b)):
+        out.append("%s: NaN at a common frequency on one of NFFT=%d / %d only" % (tag, n1, n2))
+    allv = np.abs(np.concatenate([a1, a2]))
+    allv = allv[np.isfinite(allv) & (allv > 0)]
+    if allv.size == 0:
+        # an identically zero estimate (residual variance of a noiseless record rounded to exactly 0; 0/0 = NaN where A(f) = 0 as
+        # well): every value is 0 / NaN / inf on both grids; the NaN pattern at the common bins has been compared above
+        if np.any(np.isinf(a) != np.isinf(b)):
+            out.append("%s: infinite at a common frequency on one of NFFT=%d / %d only, every other value zero" % (tag, n1, n2))
+        return out, 0.0, 0.0
+    vmin, vmax = float(allv.min()), float(allv.max())
+    kind = LINE_COND[cls]
+    A, B = np.abs(a), np.abs(b)
+    m = np.maximum(A, B)
+    with np.errstate(all="ignore"):
+        d = np.abs(a - b)
+        d = np.where(np.isfinite(d), d, np.where(a == b, 0.0, np.inf))        # inf against inf of the same sign: equal
+        tol = LINE_K * EPS * _line_cond(kind, m, vmin, vmax)
+        tol = np.where(np.isnan(tol), np.inf, tol)
+        live = (~nan) & (m > 0) & (tol < LINE_OPEN)
+        ratio = np.where(live, d / (m * tol), 0.0)
+    worst = float(np.max(ratio)) if ratio.size else 0.0
+    # exact zeros: a value that is exactly 0 on one grid must be within the absolute rounding level on the other (covered by
+    # `live` when the other is non-zero: m > 0 and d = m)
+    if worst > 1.0:
+        j = int(np.argmax(ratio))
+        fj = j * float(fs) / g
+        near = ""
+        for (ln, ld) in p.get("lines", []):
+            fl = (ln / float(ld)) % 1.0
+            if isreal:
+                fl = min(fl, 1.0 - fl)
+            dist = abs(j / float(g) - fl) * g
+            if dist < 1e-9:
+                near = " (a line bin)"
+            elif dist <= 1.0 + 1e-9 and not near:
+                near = " (next to a line bin)"
+        out.append("%s: values at the common frequency %g%s of NFFT=%d and NFFT=%d differ: %.17g vs %.17g, relative %.2e, "
+                   "tolerance from the conditioning of this bin %.2e (%d of %d common bins differ)" % (
+                       tag, fj, near, n1, n2, a[j], b[j], d[j] / m[j], tol[j], int(np.sum(ratio > 1.0)), len(a)))
+    wopen = 0.0
+    if kind in ("pole", "pole1"):
+        opn = (~nan) & (m > 0) & ~(tol < LINE_OPEN)
+        if np.any(opn):
+            lo = np.minimum(A, B)
+            with np.errstate(all="ignore"):
+                tlo = LINE_K * EPS * _line_cond(kind, lo, vmin, vmax)
+                r = np.where(opn, LINE_OPEN / tlo, 0.0)
+            wopen = float(np.max(r))
+            if wopen > LINE_W:                 # (the sign of such a value is rounding noise as well: not compared)
+                j = int(np.argmax(r))
+                out.append("%s: the value at the common frequency %g is beyond double-precision resolution on one of NFFT=%d / %d "
+                           "and ordinary on the other: %.6g vs %.6g" % (tag, j * float(fs) / g, n1, n2, a[j], b[j]))
+    _compare_params(tag, cls, o1, o2, s1, s2, out)
+    return out, worst * LINE_K, wopen
+
+
+def oracle_line(p):
+    return line_stats(p)[0]
+
+
+# ---------------------------------------------------------------------------------------------------------------------------
 
 def impl_glue(p):
     o = C.make(p["cls"], p["x"], p["nfft"], _fs_of(p), False, p.get("cfg"))
@@ -607,6 +769,13 @@ def _tags(p):
         t.append("side:%s" % p["side"])
     if n * (p.get("c") or 1) >= 1024:
         t.append("fine-grid>=1024")
+    if "where" in p:
+        t.append("line:%s" % p["where"])
+        t.append("line-noise:%g" % p.get("sigma", -1))
+        if p.get("via", "fresh") != "fresh":
+            t.append("line-via:%s" % p["via"])
+        if any(j == 0 or 2 * j == d for j, d in p.get("lines", [])):
+            t.append("line:dc-or-nyquist")
     return t
 
 
@@ -616,9 +785,13 @@ KINDS = {
     "sides": {"oracle": oracle_sides, "key": _key, "tags": _tags},
     "mt": {"oracle": oracle_mt, "key": _key, "tags": _tags},
     "opt": {"oracle": oracle_opt, "key": _key, "tags": _tags},
+    "line": {"oracle": oracle_line, "key": _key, "tags": _tags},
     "glue": {"impl": impl_glue, "model": model_glue, "rtol": 1e-9, "atol": 1e-300, "key": _key, "tags": _tags},
     "dft": {"impl": impl_dft, "model": model_dft, "rtol": 1e-10, "atol": 1e-12, "key": _key, "tags": _tags},
 }
+
+# line-spectrum cases carry the description of their content (line positions, noise level): no derived degenerate records
+NO_DEGEN = {"line"}
 
 SIZES = [7, 9, 13, 23, 25, 64, 101, 300]
 BIG_PAIRS = [(24, 4), (24, 5), (25, 7), (32, 32), (127, 2), (1024, 2), (1024, 4), (1025, 2), (2048, 2)]
@@ -688,6 +861,119 @@ def _as_form(nrng, N, form):
     if form == "complex64":
         return (nrng.standard_normal(N) + 1j * nrng.standard_normal(N)).astype(np.complex64)
     raise ValueError(form)
+
+
+# ---- (almost) noiseless line spectra ---------------------------------------------------------------------------------------
+LINE_SIGMAS = [1e-8, 1e-5, 1e-10, 0.0, 1e-6, 1e-9, 1e-12, 1e-7, 1e-11]
+LINE_N = [24, 32, 40, 64, 25, 37]
+LINE_GCD = [(2, 3), (3, 4), (3, 5), (2, 5), (4, 5)]
+
+
+def line_cfg(nrng, cls, N, ns):
+    """estimator parameters for a record of length N made of ns complex exponentials (a real sinusoid counts twice)"""
+    r = lambda lo, hi: int(nrng.integers(lo, hi + 1))     # noqa: E731
+    if cls in ("pmusic", "pev"):
+        P = ns + r(2, 5)
+        return {"order": P, "nsig": [ns, ns, ns, ns, None, min(ns + 1, P - 1)][r(0, 5)]}
+    if cls == "pburg":
+        return {"order": max(1, ns - r(0, 1))}          # above ns the residual of a noiseless record is <= 0: "decrease the order"
+    if cls == "pminvar":
+        return {"order": max(2, ns + r(-1, 1))}
+    if cls == "pyule":
+        return {"order": max(1, ns + r(-1, 2))}
+    if cls in ("pcovar", "pmodcovar"):
+        return {"order": min(N // 2 - 1, max(1, ns + r(-1, 2)))}
+    if cls == "parma":
+        return {"order": ns, "Q": r(1, 3), "lag": 2 * ns + r(4, 6)}
+    if cls == "pma":
+        Q = r(2, 4)
+        return {"Q": Q, "M": 3 * Q}
+    if cls == "pcorrelogram":
+        return {"lag": r(4, N // 2), "window": ["hamming", "hann", "bartlett", "rectangular"][r(0, 3)]}
+    if cls == "Periodogram":
+        return {"window": ["hann", "rectangular", "hamming", "blackman"][r(0, 3)]}
+    NW = [2.5, 2.0, 4.0][r(0, 2)]
+    return {"NW": NW, "k": [int(2 * NW) - 1, int(2 * NW), 2][r(0, 2)]}
+
+
+def line_record(nrng, N, cplx, lines, sigma):
+    """sum of lines a * cos / exp(2 pi i (j/d) n + phase), amplitudes in [0.3, 1.5] with the largest equal to 1, plus white noise
+    of standard deviation sigma (relative to the largest line); sigma = 0: no noise term at all"""
+    n = np.arange(N)
+    amps = nrng.uniform(0.3, 1.5, len(lines))
+    amps = amps / amps.max()
+    x = np.zeros(N, complex if cplx else float)
+    for (j, d), a in zip(lines, amps):
+        ph = nrng.uniform(0, 2 * np.pi)
+        if 2 * j == d or j == 0:
+            ph = nrng.uniform(-1.0, 1.0)                  # DC / Nyquist: keep the (real) line away from cos(phase) = 0
+        arg = 2 * np.pi * ((j * n) % d) / float(d) + ph   # (j*n) mod d: the samples are periodic to the last bit
+        x = x + (a * np.exp(1j * arg) if cplx else a * np.cos(arg))
+    if sigma:
+        x = x + sigma * (nrng.standard_normal(N) + (1j * nrng.standard_normal(N) if cplx else 0))
+    return x
+
+
+def gen_line(nrng, cls, i):
+    """one line-spectrum case for class cls; i selects noise level / placement / pair shape deterministically"""
+    cplx = bool(nrng.integers(0, 2))
+    N = LINE_N[int(nrng.integers(0, len(LINE_N)))]
+    nl = 1 + int(nrng.integers(0, 3)) % 2 + (1 if i % 11 == 10 else 0)
+    sigma = LINE_SIGMAS[i % len(LINE_SIGMAS)]
+    where = ["common", "fine-only", "common", "mixed"][(i // len(LINE_SIGMAS) + i) % 4]
+    edge = (i % 7 == 3)                                   # put one line on DC or (even common grid) the Nyquist bin
+    # number of complex exponentials of the record decides the orders; DC / Nyquist lines of real data count once
+    ns_guess = nl if cplx else 2 * nl
+    cfg = line_cfg(nrng, cls, N, ns_guess)
+    nmin = max(C.min_nfft(cls, N, cfg), 2 * nl + 4)
+    if i % 5 == 4:
+        s1, s2 = LINE_GCD[int(nrng.integers(0, len(LINE_GCD)))]
+        if nrng.integers(0, 2):
+            s1, s2 = s2, s1
+        g = -(-nmin // min(s1, s2)) + int(nrng.integers(0, 6))
+        n1, n2, c = g * s1, g * s2, None
+    else:
+        n1 = nmin + int(nrng.integers(0, 13))
+        c = [2, 3, 2, 4, 5, 3][int(nrng.integers(0, 6))]
+        n2, g = n1 * c, n1
+    nfine = max(n1, n2)
+    sf = nfine // g
+    hi_g = g - 1 if cplx else (g - 1) // 2                # bins 1 .. hi_g of the common grid are interior bins
+    hi_f = nfine - 1 if cplx else (nfine - 1) // 2
+    lines = []
+    used = set()
+    for t in range(nl):
+        on_common = where == "common" or (where == "mixed" and t == 0)
+        for _ in range(50):
+            if on_common:
+                j = int(nrng.integers(1, max(2, hi_g + 1)))
+                if edge and t == 0:
+                    j = 0 if (g % 2 or nrng.integers(0, 2)) else g // 2
+                ln = (j, g)
+            else:
+                j = int(nrng.integers(1, hi_f + 1))
+                if j % sf == 0:
+                    continue
+                ln = (j, nfine)
+            key = round(ln[0] / float(ln[1]), 9)
+            if key not in used:
+                used.add(key)
+                lines.append([int(ln[0]), int(ln[1])])
+                break
+    q = {"cls": cls, "x": line_record(nrng, N, cplx, lines, sigma), "n1": n1, "cfg": cfg, "lines": lines, "sigma": sigma,
+         "where": where}
+    if c is None:
+        q["n2"] = n2
+    else:
+        q["c"] = c
+    v = i % 6
+    if v == 2:
+        q["via"] = "setter"
+    elif v == 5:
+        q["via"] = "setter-down"
+    if i % 9 == 7:
+        q["fs"] = FS_VALUES[(i // 9) % 3]
+    return q
 
 
 def gen(rng, nrng, tier):
@@ -886,3 +1172,8 @@ def gen(rng, nrng, tier):
                 q["y"] = _data(nrng, N, cplx, tone=False) + 0.5 * np.asarray(q["x"])
             q["n1"], q["c"] = n1, c
             yield ("opt", q)
+    # ---- (almost) noiseless line spectra, every class: per-bin comparison (peak bins, their neighbours, the floor)
+    for ic, cls in enumerate(LINE_CLASSES):
+        per = (24 if cls in ("pmusic", "pev") else 12) if quick else (48 if cls in ("pmusic", "pev") else 30)
+        for t in range(per):
+            yield ("line", gen_line(nrng, cls, t + ic + r0))
